@@ -448,7 +448,10 @@ def r14_11(run):
         run.analysed(f)
         run.ob("%s|rebinds-option-value|%s" % (f.short, what), False,
                "a name holding an option value is not bound to something else afterwards", run.where(f, node))
-    run.ob("option-reads-scanned", n >= 15 and not rebinds, "names bound from get_net_option(s) in functions reachable from pipeflow: %d, none bound again" % n,
+    if n < 3:
+        # how many names hold option values is not part of the property; with next to none the scan has lost its subject
+        raise AnalysisError("only %d names bound from get_net_option(s) found in the functions reachable from pipeflow" % n)
+    run.ob("option-reads-scanned", not rebinds, "names bound from get_net_option(s) in functions reachable from pipeflow: %d, none bound again" % n,
            "src/pandapipes")
     run.floor(2)
 
